@@ -177,6 +177,10 @@ func (api *API) mapEncodeInterface(
 	// the decoder finds the implementation through the type code of the object: an implementation whose map form has no
 	// place for it (a string, a number, a slice of non-bytes, a map) can't be expressed
 	hasTypeCode := false
+	if DeRefPointer(elemType).Kind() == reflect.Map {
+		// the map form of a map consists of its entries only (an entry named "type" is an entry, not a type code)
+		ele = nil
+	}
 	switch eleMap := ele.(type) {
 	case *orderedmap.OrderedMap:
 		_, hasTypeCode = eleMap.Get(keyType)
